@@ -1,13 +1,14 @@
 import GrinVerif.Model.SerImpls
 /-! # C10 — obligations about the inventory of `Readable` / `Writeable` impls
 
-`Model/SerImpls.lean` lists every `impl … Readable for …` / `impl … Writeable for …` of the source tree
-(all crates, code outside `#[cfg(test)]`) with a fingerprint of its text and with WHAT COVERS IT in the
-model. The `impls` run of the `ser` harness recomputes the list from the current source on every
-check; the driver answers `unlisted` / `changed` / a wrong count as a model disagreement and checks
-that every codec name below is one its dispatch knows. What is decided HERE (closed terms, `decide`)
-is that the table itself is complete and coherent: these are obligations about the bookkeeping, not
-about grin - they make sure that a new or re-classified impl cannot slip in silently.
+`Gen/SerImpls.lean` is REGENERATED from the source on every check run (tools/gen_serimpls.py): every
+`impl … Readable for …` / `impl … Writeable for …` of every crate (outside `#[cfg(test)]`) with a
+fingerprint of its text (comments and white space removed). `Model/SerImpls.lean` is the hand-kept
+side: the fingerprint each impl had when it was read against the model, and WHAT COVERS IT.
+`inventory_matches_source` decides that the two agree - a new, removed or changed impl breaks it
+until the impl has been re-read and the pin updated. The other obligations say that the table is
+complete and coherent (bookkeeping, not statements about grin). The driver checks at run time that
+every codec name below is one its dispatch knows (`ser implcodecs` line of the `db` run).
 
 The coverage classes: `codec` (own `ser dec` / `ser enc` lines, byte-exact), `inside` (read as a field
 of the named codec), `wrapper` (read-time validation wrapper on top of the named plain codec; the
@@ -17,6 +18,11 @@ namespace GV.Props.C10Impls
 open GV.SerImpls
 
 set_option maxRecDepth 100000
+
+/-- the source as it is NOW has exactly the impls of the table, in the same order, each with the
+text it had when it was read against the model -/
+theorem inventory_matches_source :
+    GV.Gen.SerImpls.parseError = none ∧ GV.Gen.SerImpls.found = table.map Impl.key := by decide
 
 /-- 72 readers and 72 writers -/
 theorem inventory_size : table.length = 144 ∧ count "R" = 72 ∧ count "W" = 72 := by decide
@@ -40,13 +46,13 @@ theorem every_reader_has_a_writer :
 references, `MsgHeader` (read as `MsgHeaderWrapper`), `Headers` (streamed by the codec: C19) -/
 theorem every_writer_has_a_reader :
     (table.filter fun i => i.kind == "W" && !(table.any fun j => j.kind == "R" && j.ty == i.ty && j.file == i.file)).map
-      (fun i => i.ty) = ["Inputs", "&'aA", "MsgHeader", "Headers"] := by
+      (fun i => i.ty) = ["&'aA", "Inputs", "MsgHeader", "Headers"] := by
   decide
 
 /-- the readers NOT compared byte for byte by any run, each with its reason in the table -/
 theorem excluded_readers :
     (table.filter fun i => i.kind == "R" && (match i.cover with | .excluded _ => true | _ => false)).map
-      (fun i => i.ty) = ["BoolFlag", "BitmapChunk", "PublicKey"] := by
+      (fun i => i.ty) = ["BoolFlag", "BitmapChunk"] := by
   decide
 
 /-- a reader and the writer of the same type are covered by the same thing -/
@@ -70,11 +76,9 @@ theorem cover_names_known :
 `ser dec` lines for - as a list, so that re-classifying one changes this statement -/
 theorem readers_with_own_lines :
     ((table.filter fun i => i.kind == "R" && (match i.cover with | .codec _ => true | _ => false)).map
-      fun i => i.ty).length = 57 := by
+      fun i => i.ty).length = 58 := by
   decide
 
-example : lookup "R" "p2p/src/store.rs" "PeerData" ≠ none := by decide
-example : answer "R" "core/src/ser.rs" "Vec<T>" 0 ≠ "listed" := by decide
-example : answer "R" "core/src/ser.rs" "Option<T>" 0 = "unlisted" := by decide
+example : table.any (fun i => i.ty == "PeerData" && i.kind == "R") = true := by decide
 
 end GV.Props.C10Impls
